@@ -43,6 +43,8 @@ PRETEXTS = [
     ("# ^name$ ", "# ^desc$ "),
     ("# Rule: ", "# RULE: "),
     ("# rule: ", "# Rule: info: "),
+    ("# Re\u0301gle: ", "# De\u0301tail: "),
+    ("# \u212bngstr\u00f6m ", "# \u2126 "),
 ]
 NAME_ALPHA = ["abcdefghijklmnopqrstuvwxyz0123456789", " ", "éüß€日本𝔘", ".-_@!?()[]{}*+=/", "ABCXYZ", "#:;,\"\\'|<>~", "e\u0301\u212b\u2126\ufb01\u200b\u200d\u202e\ufeff\u00a0\U0001f600\u0130\u00df"]
 
@@ -53,7 +55,8 @@ def gen_label(f, label, minlen=1, maxlen=10):
 
 
 LONG_PARTS = ["lorem ipsum dolor sit amet", "  two  spaces ", "https://example.org/a/very/long/path/without/any/space/in/it/at/all/0123456789",
-              "日本語のとても長い説明文がここに入りますので折り返されるかもしれません", "hyphen-ated-words-all-the-way-down-the-line", "x", "é" * 30, "tab\there"]
+              "日本語のとても長い説明文がここに入りますので折り返されるかもしれません", "hyphen-ated-words-all-the-way-down-the-line", "x", "é" * 30, "tab\there", "C:\\reports\\new", "\\\\nas01\\mail", "\\r?$ \\n \\t \\\\",
+              "cafe\u0301 \u2126 \u212b"]
 
 
 def gen_long_desc(f, label):
